@@ -98,6 +98,55 @@ def run_vh(args, timeout=3600):
     return p.stdout
 
 
+def run_trace_tlc(module, trace, out, metadir, timeout=3000, xmx="3g"):
+    """Validate one recorded ndjson trace with spec/<module>.tla (single worker, depth-first queue)."""
+    e = env()
+    e["TRACE"] = trace
+    e["TLC_JAVA_OPTS"] = f"-Xss1g -Xmx{xmx} -Dtlc2.tool.queue.IStateQueue=StateDeque"
+    with open(out, "w") as f:
+        try:
+            subprocess.run([TLC_SH, "1", metadir, os.path.join(SPEC, module + ".cfg"), os.path.join(SPEC, module + ".tla")],
+                           stdout=f, stderr=subprocess.STDOUT, env=e, timeout=timeout)
+        except subprocess.TimeoutExpired:
+            raise ToolError(f"{module} timed out on {trace}")
+    return tlc_stats(out)
+
+
+def parse_verdicts(out):
+    """VERDICT rows printed by a trace spec, whether the whole trace was consumed, and the JUDGED count."""
+    vs, consumed, judged = [], False, None
+    for line in open(out, errors="replace"):
+        if line.startswith('<<"VERDICT", "'):
+            body = line.strip()[len('<<"VERDICT", "'):-3]
+            vs.append(json.loads(body.replace('\\"', '"').replace('\\\\', '\\')))
+        elif line.startswith('<<"JUDGED", '):
+            judged = int(line.strip()[len('<<"JUDGED", '):].split(",")[0])
+        elif line.startswith("Model checking completed. No error has been found."):
+            consumed = True
+    return vs, consumed, judged
+
+
+def validate_traces(module, record_cmds, wd, tag, timeout=3000):
+    """record_cmds: list of (vh args producing a trace at path, path). Runs recorder + TLC per shard in parallel.
+    Returns list of (events, verdicts, judged) per shard."""
+    import concurrent.futures as cf
+
+    def one(k):
+        args, path = record_cmds[k]
+        run_vh(args)
+        out = os.path.join(wd, f"{tag}_{k}.out")
+        st = run_trace_tlc(module, path, out, os.path.join(wd, f"md_{tag}_{k}"), timeout=timeout)
+        vs, consumed, judged = parse_verdicts(out)
+        if not consumed:
+            raise ToolError(f"{module} did not consume {path}: {st.get('error')} (see {out})")
+        events = [json.loads(x) for x in open(path)]
+        os.remove(path)
+        return events, vs, judged
+
+    with cf.ThreadPoolExecutor(max_workers=min(16, max(1, len(record_cmds)))) as ex:
+        return list(ex.map(one, range(len(record_cmds))))
+
+
 # ---------------------------------------------------------------- findings
 
 def load_findings():
